@@ -140,6 +140,7 @@ def run(ctx):
     g = W.trace_and_tie(ctx)
     if g is not None:
         W.kernel_self_check(ctx, g)
+    W.dft_instance(ctx)
     W.fft_contracts(ctx)
     for name, inp in gen_inputs(ctx, 60 if ctx.thorough else 10):
         apply_oracle(ctx, name, inp)
